@@ -11,7 +11,7 @@ rules = sys.argv[8] if len(sys.argv) > 8 else ""
 lines = open(probe).read().split("\n")[int(a) - 1:int(b)]
 item = rs.find_item(open(path).read(), kw, name, impl=impl)
 real = item.text
-for r in [x for x in rules.split(";") if x]:
+for r in [x.strip() for x in (rules.split(";;") if ";;" in rules else rules.split(";")) if x.strip()]:
     rn, _, ra = r.partition(":")
     real, n, note = tp.RULES[rn](real, ra)
 rt = rs.norm(real)
